@@ -117,7 +117,48 @@ def parse_kani_output(text):
     return res
 
 
+def _tree_hash():
+    import hashlib
+    h = hashlib.sha256()
+    for base in (os.path.join(REPO, "rodbus"), os.path.join(VERIF, "kani")):
+        for root, dirs, files in os.walk(base):
+            dirs[:] = sorted(d for d in dirs if d != "target")
+            for f in sorted(files):
+                if f.endswith((".rs", ".toml")):
+                    p = os.path.join(root, f)
+                    h.update(p[len(base):].encode())
+                    h.update(open(p, "rb").read())
+    return h.hexdigest()
+
+
 def run_harnesses(harnesses, tier, keep=False):
+    """VERIF_CACHE=1 (regression drivers only, never the registered commands): the verdict of a harness on a byte-identical crate +
+    harness set is reused within one build directory (several properties share harnesses)"""
+    if not harnesses or not os.environ.get("VERIF_CACHE") or not os.environ.get("VERIF_BUILD"):
+        return _run_harnesses(harnesses, tier, keep)
+    cdir = os.path.join(os.environ["VERIF_BUILD"], "cache")
+    os.makedirs(cdir, exist_ok=True)
+    th = _tree_hash()
+    out = {"harnesses": [], "tool_errors": []}
+    todo = []
+    for h in harnesses:
+        ck = os.path.join(cdir, f"kani-{th[:24]}-{h['name']}.json")
+        if os.path.exists(ck):
+            out["harnesses"].append(json.load(open(ck)))
+        else:
+            todo.append((h, ck))
+    if todo:
+        r = _run_harnesses([h for h, _ in todo], tier, keep)
+        out["tool_errors"] += r["tool_errors"]
+        for e in r["harnesses"]:
+            out["harnesses"].append(e)
+            ck = next(c for h, c in todo if h["name"] == e["name"])
+            if e["status"] in ("SUCCESS", "FAILED") and not r["tool_errors"]:
+                json.dump(e, open(ck, "w"))
+    return out
+
+
+def _run_harnesses(harnesses, tier, keep=False):
     out = {"harnesses": [], "tool_errors": []}
     if not harnesses:
         return out
